@@ -13,7 +13,7 @@ namespace etl {
 /// number representation and converts them to an integer value.
 [[nodiscard]] constexpr auto atoll(char const* str) noexcept -> long long
 {
-    auto const result = strings::to_integer<long long>(str);
+    auto const result = strings::to_integer<long long, strings::to_integer_c_options>(str);
     return result.value;
 }
 
